@@ -149,6 +149,10 @@ func checkC05(p *Prog, r *Report) {
 	r.Stat("custom JSON decoders added to the inbound tree", w.Decoders)
 	r.Stat("API entry points receiving an inbound message back from the application", w.MsgRoots)
 	r.Floor("R1", "getter fields that are nil by construction", nGetters, 1)
+	r.Stat("look-ups of the repository that can miss (one pointer/interface result, constant nil on some path)", w.LookupFns)
+	r.Stat("method calls on a look-up result in the inbound tree (each needs a dominating non-nil test)", w.LookupSites)
+	r.Floor("R1", "look-ups that can miss", w.LookupFns, 10)
+	r.Floor("R1", "method calls on a look-up result in the inbound tree", w.LookupSites, 5)
 	nf := 0
 	tf := 0
 	for _, k := range sortedKeys(w.taintedField) {
@@ -184,6 +188,9 @@ func checkC05(p *Prog, r *Report) {
 		why := "a datagram omitting this element crashes the reader goroutine"
 		if strings.HasSuffix(f.Path, "()") {
 			why = "the getter returns nil until the value was learned from the peer; a message handled before that crashes the reader goroutine"
+		}
+		if strings.HasPrefix(f.Path, "result of ") {
+			why = "the look-up returns nil when nothing matches (an address the peer chose, an entry removed meanwhile); a message naming such a key crashes the reader goroutine"
 		}
 		r.Fail(rule, k, p.InstrPos(f.Ins), fmt.Sprintf("unguarded %s %s: %s", what, f.Path, why))
 	}
